@@ -167,6 +167,16 @@ func (c17l3) Execute(sc core.Script, keep bool) *core.Result {
 	}
 	o := l3RunIsolated(s, k, k2, 0)
 	res.Steps += o.Steps
+	if o.Crash != "" {
+		// a death of the traced process only counts if it happens again: under heavy load
+		// a tracee can be lost for reasons that have nothing to do with the library
+		o2 := l3RunIsolated(s, k, k2, 0)
+		res.Steps += o2.Steps
+		if o2.Crash == "" {
+			res.Unclaimed = append(res.Unclaimed, "L3: a traced process died once and not on retry")
+			o = o2
+		}
+	}
 	pair := s.A.Kind + "+" + s.B.Kind
 	log.Add("%s k=%d k2=%d parkedA=%s parkedB=%s aEnded=%v", pair, k, k2, o.PreemptAt, o.Preempt2, o.AEnded)
 	res.Interleave = fmt.Sprint(pair, s.A.PtLen, s.B.PtLen, s.A.Msg, s.B.Msg, k, k2)
